@@ -494,6 +494,21 @@ pub fn case(ch: &mut Choices, ctx: &CaseCtx) -> CaseOut {
                 }
             }
         }
+        // the embedding API's push obeys the stack limit too
+        if which == Lim::Stack && out.fail.is_none() && drive == 0 {
+            let mut xa = base.clone();
+            let held = xa.verif_counts().0;
+            xa.set_stack_limit(Some(held + 2)).unwrap();
+            let mut pushed = 0;
+            for k in 0..5 {
+                if xa.push_data(Cell::Int(k)).is_ok() {
+                    pushed += 1;
+                }
+            }
+            if pushed != 2 || xa.verif_counts().0 != held + 2 {
+                fail(&mut out, "api", "push_data does not stop exactly at the stack limit", format!("{} pushes succeeded with room for 2 (stack {} -> {})", pushed, held, xa.verif_counts().0));
+            }
+        }
         // API variable definition obeys the heap limit too
         if which == Lim::Heap && out.fail.is_none() && drive == 0 {
             let mut xa = base.clone();
